@@ -191,7 +191,7 @@ class Prop:
         for ci, cfg in enumerate(cfgsA):
             if tier == 'quick' and ci > 0:
                 continue
-            for seq in itertools.product(alA, repeat=dA):
+            for seq in itertools.product(alA, repeat=(dA if ci == 0 else 3)):
                 cases.append(dict(peers=cfg, dur=360, ins=list(seq)))
         # -- B: three peers, three families, all sequences of length 2 (quick) / 3 (thorough) after
         #       state-reaching prefixes
@@ -203,8 +203,8 @@ class Prop:
                  [('est', 3, [F[2]]), ('eor', 3, F[2]), ('est', 2, [F[2]])],
                  [('wd', 1), ('est', 2, [F[1], F[2]]), ('est', 3, [F[2]]), ('eor', 2, F[2])]]
         dB = 2 if tier == 'quick' else 3
-        for pre in presB:
-            for seq in itertools.product(alB, repeat=dB):
+        for pi, pre in enumerate(presB):
+            for seq in itertools.product(alB, repeat=(dB if pi < 2 else 2)):
                 cases.append(dict(peers=cfgB, dur=None if len(pre) == 1 else 90, ins=pre + list(seq)))
         # -- C: random longer sequences, mostly disciplined, over random configurations
         nrand = 1500 if tier == 'quick' else 20000
